@@ -23,6 +23,7 @@ import (
 	"github.com/avos-io/goat/gen/goatorepo"
 	"github.com/avos-io/goat/internal"
 	"github.com/avos-io/goat/internal/server"
+	"github.com/avos-io/goat/internal/verifhook"
 )
 
 // ServerOption is an option used when constructing a NewServer.
@@ -134,6 +135,7 @@ func (s *Server) RegisterService(sd *grpc.ServiceDesc, ss interface{}) {
 
 func (s *Server) Serve(ctx context.Context, rw RpcReadWriter) error {
 	h := newHandler(s.ctx, s, rw)
+	verifTrackHandler(h)
 	err := h.serve(ctx)
 	h.cancelAndWaitForStreams()
 	return err
@@ -202,6 +204,7 @@ func (h *handler) serve(clientCtx context.Context) error {
 		for {
 			select {
 			case rpc := <-h.writeChan:
+				verifhook.At("srv.writer.beforeWrite", rpc.GetId())
 				err := h.rw.Write(h.ctx, rpc)
 				if err != nil {
 					h.cancel(fmt.Errorf("write error: %v", err))
@@ -268,6 +271,7 @@ func (h *handler) serve(clientCtx context.Context) error {
 			continue
 		}
 		if sd, ok := si.streams[method]; ok {
+			verifhook.At("srv.beforeStream", rpc.GetId())
 			if err := h.processStreamingRpc(clientCtx, si, sd, rpc); err != nil {
 				return err
 			}
@@ -402,6 +406,7 @@ func (h *handler) processUnaryRpc(
 		})
 	}
 
+	verifhook.At("srv.unary.handoff", rpc.GetId())
 	return &goatorepo.Rpc{
 		Id:      rpc.GetId(),
 		Header:  respHeader,
@@ -545,6 +550,7 @@ func (h *handler) runStream(
 		appErr = sd.Handler(info.serviceImpl, stream)
 	}
 
+	verifhook.At("srv.stream.afterHandler", streamId)
 	err = stream.SendTrailer(appErr)
 	if err != nil {
 		return err
@@ -554,6 +560,7 @@ func (h *handler) runStream(
 }
 
 func (h *handler) unregisterStream(id uint64) {
+	verifhook.At("srv.stream.beforeUnregister", id)
 	h.mu.Lock()
 	defer h.mu.Unlock()
 
